@@ -34,6 +34,19 @@ impl<'a> BufferReader<'a> {
         unimplemented!()
     }
 
+    // Kani: p_readers_get_bytes
+    #[verifier::external_body]
+    fn get_bytes(&mut self, len: usize) -> (r: Option<&'a [u8]>)
+        ensures
+            match r {
+                Some(b) => len <= old(self).remaining().len() && b@ == old(self).remaining().take(len as int)
+                    && final(self).remaining() == old(self).remaining().skip(len as int),
+                None => len > old(self).remaining().len() && final(self).remaining() == old(self).remaining(),
+            },
+    {
+        unimplemented!()
+    }
+
     #[verifier::external_body]
     fn buffer_remaining(&mut self) -> (r: &'a [u8])
         ensures r@ == old(self).remaining(), final(self).remaining() == old(self).remaining(),
@@ -78,6 +91,37 @@ fn header_map_insert_strings(h: &mut HeaderMap, k: String, v: String) {
     unimplemented!()
 }
 
+// assumed: httlib-huffman decoder, slice::to_vec, String::from_utf8 (total functions on their input)
+#[verifier::external_body]
+fn huffman_decode(src: &[u8], dst: &mut Vec<u8>) -> (r: Result<(), ()>) {
+    unimplemented!()
+}
+
+#[verifier::external_body]
+fn slice_to_vec(s: &[u8]) -> (r: Vec<u8>)
+    ensures r@ == s@,
+{
+    unimplemented!()
+}
+
+#[verifier::external_body]
+fn string_from_utf8(v: Vec<u8>) -> (r: Result<String, ()>) {
+    unimplemented!()
+}
+
+proof fn lemma_suffix_trans(a: Seq<u8>, b: Seq<u8>, c: Seq<u8>)
+    requires is_suffix(a, b), is_suffix(b, c),
+    ensures is_suffix(a, c),
+{
+    assert(a =~= c.skip(c.len() - a.len()));
+}
+
+proof fn lemma_skip_is_suffix(s: Seq<u8>, n: int)
+    requires 0 <= n <= s.len(),
+    ensures is_suffix(s.skip(n), s),
+{
+}
+
 struct StaticTable;
 
 impl StaticTable {
@@ -104,15 +148,22 @@ impl Decoder {
         unimplemented!()
     }
 
-    // assumed (httlib-huffman, String::from_utf8, Vec): starts with a prefix integer, only moves forward
-    #[verifier::external_body]
-    fn decode_string<const N: usize>(bytes_reader: &mut BufferReader<'_>) -> (r: Result<String, DecodingError>)
-        ensures
-            is_suffix(final(bytes_reader).remaining(), old(bytes_reader).remaining()),
-            r is Ok ==> final(bytes_reader).remaining().len() < old(bytes_reader).remaining().len(),
-    {
-        unimplemented!()
-    }
+//@ extract wtransport-proto/src/qpack.rs >> impl Decoder >> fn decode_string
+//@ subst `fn decode_string<'a, const N: usize, R>(bytes_reader: &mut R) -> Result<String, DecodingError>
+//@ |    where
+//@ |        R: BytesReader<'a>,` => `fn decode_string<const N: usize>(bytes_reader: &mut BufferReader<'_>) -> Result<String, DecodingError>`
+//@ subst `Self::decode_integer::<N, R>(bytes_reader)?` => `Self::decode_integer::<N>(bytes_reader)?`
+//@ substw `httlib_huffman::decode( string_data, &mut string_dec, httlib_huffman::DecoderSpeed::OneBit, ) .map_err(|_| DecodingError::InvalidString)?;` => `huffman_decode(string_data, &mut string_dec).map_err(|_e: ()| -> (o: DecodingError) ensures o == DecodingError::InvalidString { DecodingError::InvalidString })?;`
+//@ subst `string_data.to_vec()` => `slice_to_vec(string_data)`
+//@ subst `String::from_utf8(string_data).map_err(|_| DecodingError::InvalidString)` => `string_from_utf8(string_data).map_err(|_e: ()| -> (o: DecodingError) ensures o == DecodingError::InvalidString { DecodingError::InvalidString })`
+//@ prologue let ghost s0 = bytes_reader.remaining();
+//@ insert_after `Self::decode_integer::<N>(bytes_reader)?;` => `let ghost s1 = bytes_reader.remaining();`
+//@ insert_after `.ok_or(DecodingError::UnexpectedFin)?;` => `proof { lemma_skip_is_suffix(s1, string_len as int); lemma_suffix_trans(bytes_reader.remaining(), s1, s0); }`
+//@ insert_before `let mut string_dec = Vec::with_capacity(string_len);` => `proof { assert(string_len <= s0.len()); } // C11: the decoder never allocates more than the input it was given`
+//@ ensures
+//@ | is_suffix(final(bytes_reader).remaining(), old(bytes_reader).remaining()),
+//@ | r is Ok ==> final(bytes_reader).remaining().len() < old(bytes_reader).remaining().len()
+//@ end
 
 //@ extract wtransport-proto/src/qpack.rs >> impl Decoder >> fn decode_field_line_type
 //@ prologue proof { assert((byte >> 7 == 1u8) || (byte >> 4 == 1u8) || (byte >> 6 == 1u8) || (byte >> 4 == 0u8) || (byte >> 5 == 1u8)) by (bit_vector); assert((byte >> 7 == 1u8) == (byte & 0x80 == 0x80)) by (bit_vector); assert((byte >> 4 == 1u8) == (byte & 0xf0 == 0x10)) by (bit_vector); assert((byte >> 6 == 1u8) == (byte & 0xc0 == 0x40)) by (bit_vector); assert((byte >> 4 == 0u8) == (byte & 0xf0 == 0x00)) by (bit_vector); assert((byte >> 5 == 1u8) == (byte & 0xe0 == 0x20)) by (bit_vector); }
